@@ -16,7 +16,7 @@ CHECKS = {
  "C06": ("model_checking", "6 C06", "same executions as C05; whenever the library accepts an input the strict reference decoder (leniencies of DESIGN 4.5 only) must assign it the same value",
          "Sandwich of the accepted language: every input of the C05 sweeps that the library decodes to Ok(v) is decoded to the same v by the strict reference decoder (about 50 M accepted inputs in the quick tier, 7.9 G in the thorough tier); together with C04-backward this bounds the decoder from both sides. Also over the encodings written by every other version of each history (untouched and 1-point tampered) and the nested-evolved declarations."),
  "C07": ("model_checking", "6 C07", "exhaustive enumeration of (type, value, suffix) and (history, w, r, value, suffix): decode from a DeserializationContext, then observe the unread bytes",
-         "For every value of the universes and 8 suffixes, decoding consumes exactly the encoding; for evolved records under every writer/reader pair with stored version >= 1 (and version 0 without removals)."),
+         "For every value of the universes and 8 suffixes, decoding consumes exactly the encoding; for evolved records under every writer/reader pair with stored version >= 1 (and version 0 without removals). Also sequences, sets and maps of 65 535 .. 131 073 elements followed by a suffix."),
  "C08": ("fault_enumeration", "6 C08", "enumeration of every cut point of every encoding of the universes (crash-point enumeration of a torn write)",
          "Every strict prefix of every encoding (all cut points up to 600 bytes, boundary-heavy subset beyond) is rejected with Err; evolved records also under every other definition of their history when the stored version is >= 1."),
  "C09": ("model_checking", "6 C09", "exhaustive enumeration of scripts of deduplicated / plain string writes x seven placements, executed on the real library and compared with the model and with the statement's own id arithmetic",
@@ -28,13 +28,13 @@ CHECKS = {
  "C12": ("model_checking", "6 C12", "exhaustive enumeration of element lists x source containers x target containers x size forms, decode followed by a sentinel",
          "All lists of length <= 3 over 5 element types, every source (incl. slices and reference-built unknown-size streams) read as every target container; maps and byte containers pairwise. Also u8 elements among list / sets, and streams of up to 300 (5 000) sibling sequences in every combination of size forms read as four nested containers."),
  "C13": ("model_checking", "6 C13", "exhaustive enumeration of enum declarations with one-variant extensions x values x constructor indices, compiled and through the dynamic driver",
-         "All enums with <= 3 variants over 7 variant kinds, sorted and unsorted, each with its extensions: old data keeps its meaning under the extension, new-variant data and every unknown / transient index is Err (never an unwind), leading bytes are 00 varu(index)."),
+         "All enums with <= 3 variants over 7 variant kinds, sorted and unsorted, each with its extensions: old data keeps its meaning under the extension, new-variant data and every unknown / transient index is Err (never an unwind), leading bytes are 00 varu(index). Fieldless enums with explicit discriminants are part of the universe."),
  "C14": ("model_checking", "6 C14", "exhaustive enumeration of declarations with transient fields / constructors x values; histories ending in FieldMadeTransient",
-         "Transient fields never change the bytes and decode to their declared default (defaults differ from every enumerated value); transient constructors give the dedicated error through every sink; every history prefix ending in FieldMadeTransient stays encodable."),
+         "Transient fields never change the bytes and decode to their declared default (defaults differ from every enumerated value); transient constructors give the dedicated error through every sink; every history prefix ending in FieldMadeTransient stays encodable. For every compiled history with a FieldMadeTransient step, data written before the step and read after it leaves the declared default in the field."),
  "C16": ("fault_enumeration", "6 C16", "enumeration of contents x levels x sinks x sources, frames parsed independently and inflated by Python zlib; per frame every truncation, every single-bit flip and boundary rewrites of both header fields",
          "Round trip and true framing for the whole corpus at every compression level; raw DEFLATE streams inflate identically under Python's zlib; every truncation is Err; every bit flip / header rewrite is Ok or Err without unwinding and without an allocation request out of proportion. Contents <= 4 KiB also inside records through the real Adt API (plain, chunk 0, chunk 1), with every truncation of those records."),
  "C17": ("model_checking", "6 C17", "exhaustive enumeration of all Unicode scalar values, boundary lengths on zero-width containers and exact-size iterators, metadata naming unknown fields, and every value of the universe",
-         "Every encode returns Ok or the documented Err variant (UnsupportedCharacter with the character, LengthTooLarge at and above 2^31, SerializingTransientConstructor, UnknownFieldReferenceInEvolutionStep); no unwind anywhere in the enumerated space. Also every evolution step list of length <= 3 (4) over four step kinds x three names, legal or not."),
+         "Every encode returns Ok or the documented Err variant (UnsupportedCharacter with the character, LengthTooLarge at and above 2^31, SerializingTransientConstructor, UnknownFieldReferenceInEvolutionStep); no unwind anywhere in the enumerated space. Also every evolution step list of length <= 3 (4) over four step kinds x three names, legal or not. Also records of 1 .. 300 fields in one chunk (around the one-byte position limits) with four evolution shapes."),
  "C15": ("model_checking", "6 C15", "exhaustive enumeration of (type, value) x six sinks on the same instance; op-sequence exploration on the three sources",
          "Bytes through Vec, BytesMut, serialize_to_bytes, serialize_to_byte_vec and a recording user output are identical and SizeCalculator equals their length, for every value of the universes; the three BinaryInput implementations agree step by step on every operation sequence of depth <= 3 (4) over 22 operations with boundary and extreme counts on every short input. Also: the context inside a chunk of an evolved record as a fourth input implementation; every script (length <= 2 / 3) of the 18 output primitives issued by a field codec in four placements through three sinks."),
  "C18": ("model_checking", "6 C18", "stateless exploration of all interleavings (shuttle DFS scheduler, no preemption bound) of small thread bodies on the real code with scheduler-visible metadata statics and hook points; every call sequence up to a depth in fresh processes",
